@@ -203,16 +203,22 @@ class System(ListeningSystem, SendingSystem):
         counter = 0
         subscribers = []
         while not stop.value:
-            try:
-                sub = subscribe_q.get_nowait()
-                subscribers.append(sub)
-            except Empty:
-                pass
-            try:
-                sub = unsubscribe_q.get_nowait()
+            # Collect the unsubscriptions first, then every subscription: a
+            # client always subscribes before it unsubscribes, so each queue
+            # to be removed has been appended by the time it is removed
+            unsubscribed = []
+            while True:
+                try:
+                    unsubscribed.append(unsubscribe_q.get_nowait())
+                except Empty:
+                    break
+            while True:
+                try:
+                    subscribers.append(subscribe_q.get_nowait())
+                except Empty:
+                    break
+            for sub in unsubscribed:
                 subscribers.remove(sub)
-            except Empty:
-                pass
             try:
                 command_threads.append(cmd_queue.get_nowait())
             except Empty:
